@@ -93,11 +93,18 @@ def discharge(obligations, jobs=None, timeout_ms=None, cross=False):
     jobs = jobs or min(16, os.cpu_count() or 4)
     timeout_ms = timeout_ms or QUICK_TIMEOUT_MS
     texts = []
+    work = []
     for i, ob in enumerate(obligations):
+        g = ob["goal"]
+        if z3.is_true(g) and ob.get("kind", "vc") == "vc":
+            # structural obligation already decided by the executor's heap / call-log bookkeeping on this path
+            ob.update(status="proved", ms=0.0, backend="executor(structural)", reason="", model=None, solver_result="valid")
+            texts.append(None)
+            continue
         metas = {k: v for k, v in (ob.get("meta") or {}).items() if isinstance(v, z3.ExprRef)}
-        text, _ = to_query(ob["pc"], ob["goal"], metas)
+        text, _ = to_query(ob["pc"], g, metas)
         texts.append(text)
-    work = [(i, t, timeout_ms, True) for i, t in enumerate(texts)]
+        work.append((i, text, timeout_ms, True))
     if len(work) <= 2 or jobs == 1:
         results = [_worker(w) for w in work]
     else:
